@@ -54,6 +54,10 @@ def run(R, tier, seed, driver_ok):
             dist = np.sqrt(((pairs[:, 0] - pairs[:, 1]) ** 2).sum(1))
             lo, hi = np.percentile(dist, [20, 80])
             bounds = [float(lo), float(hi)] if rng.rand() < 0.7 else [float(hi), float(lo)]
+            if mode == 4:
+                # integer bounds (an integer-dtype array reaches fit): the slack-adjusted bounds must still be real numbers
+                lo_i = max(1, int(round(lo))); hi_i = max(lo_i + 1, int(round(hi)) + 1)
+                bounds = [lo_i, hi_i]
         supervised = (rep % 7 == 3)
         sd = int(rng.randint(1 << 30))
         case = {'prior': prior_kind, 'gamma': gamma, 'max_iter': max_iter, 'tol': tol, 'bounds': bounds, 'pairs': pairs, 'y': yy, 'supervised': supervised}
